@@ -17,7 +17,8 @@ def include_cfg(files, extra):
 def include_case(sc):
     files = {}
     def text(node):
-        lines = [f'#include "{n}.asm"\n' for n in sc['incs'][node]]
+        # every second include line carries a comment with an apostrophe and a double quote (comments carry no meaning)
+        lines = [f'#include "{n}.asm"' + ('  ; don\'t "move" this\n' if (j + len(node)) % 2 else '\n') for j, n in enumerate(sc['incs'][node])]
         if node == 'main' and sc.get('skipmain') and lines:
             lines[-1] = '#ifdef SYMBOL_THAT_IS_NOT_DEFINED\n' + lines[-1] + '#endif\n'
         return f'.byte {MARK[node]}\n' + ''.join(lines)
